@@ -7,14 +7,20 @@
     10^k, to Flocq's correctness theorems over the real numbers; this is the only place where the real-number axioms
     of Coq's standard library are used); the same holds for any plain decimal text given to _সংখ্যা; _স্ট্রিং yields the
     same text as printing; infinities and NaN are unprintable; _সংখ্যা rejects what the float grammar rejects.
-    NOT proved: that the model of f64::to_string (flt2dec Dragon) prints shortest digits that read back to the same
-    double, and the plain-decimal shape of the printed text.  This is a Rust std function: modelled, and tied by the f64
+    The printed text of every printable number is plain decimal -- optional '-', Bangla digits, optionally a point and
+    more Bangla digits, never an exponent -- and the conversion built-in reads it as a number
+    (C09_printed_text_is_plain_decimal, C09_printed_characters, C09_printed_text_reads_as_a_number; Proofs/NumShape.v).
+    Every finite binary64 number IS printable (C09_finite_numbers_print_as_plain_decimal, Proofs/NumPrintable.v: every digit the
+    shortest-representation model produces is a decimal digit -- the loop keeps remainder < scale, and the estimate of
+    the decimal exponent is never too small, checked for all 2201 possible binary exponents by computation).
+    NOT proved: that the model of f64::to_string (flt2dec Dragon) prints shortest digits that read back to THE SAME
+    double.  This is a Rust std function: modelled, and tied by the f64
     stream (bit-exact on >= 10^4 values per run) and by the numbers stream, whose direct check of read-back equality on
     the implementation is the test of the round-trip statement. *)
 From Coq Require Import Reals.
 From Flocq Require Import Core.Core IEEE754.BinarySingleNaN.
 From Pakhi Require Import Base Float64 Syntax Tables Lexer Interp.
-From Pakhi.Proofs Require Import Num NumNearest.
+From Pakhi.Proofs Require Import Num NumText NumNearest NumShape NumPrintable.
 Local Open Scope nat_scope.
 
 Theorem C09_digit_tables :
@@ -92,3 +98,40 @@ Theorem C09_literal_is_the_nearest_double : forall rest line file v n, consume_n
      SF2R radix2 v = rnd64 (dec_real neg (digits_val 0 (ip ++ fp)) (Z.of_nat (length fp)))).
 Proof. exact literal_of_reasonable_length_is_nearest. Qed.
 Print Assumptions C09_literal_is_the_nearest_double.
+
+(** what a printed number looks like: [plain_ascii]: an optional '-', one or more digits, and -- if there is a point -- one
+    or more digits after it; the printed text is that text with every digit replaced by its Bangla digit *)
+Theorem C09_printed_text_is_plain_decimal : forall x s, to_bn_num x = Some s ->
+  plain_ascii (f64_to_string x) /\ s = map_chars print_char_map (f64_to_string x).
+Proof. exact printable_is_plain. Qed.
+Print Assumptions C09_printed_text_is_plain_decimal.
+
+Theorem C09_printed_characters : forall x s, to_bn_num x = Some s ->
+  Forall (fun c => c = 45%N \/ c = 46%N \/ is_bn_digit c = true) s.
+Proof. exact printed_characters. Qed.
+Print Assumptions C09_printed_characters.
+
+(* read back through the conversion built-in (which maps Bangla digits to ASCII and parses): always a number *)
+Theorem C09_printed_text_reads_as_a_number : forall x s, to_bn_num x = Some s ->
+  exists y, parse_f64 (map_chars builtins_bn_to_en s) = Some y.
+Proof. exact printed_text_reads_as_a_number. Qed.
+Print Assumptions C09_printed_text_reads_as_a_number.
+
+(* the digits the shortest-representation model produces are never negative and there is at least one *)
+Theorem C09_shortest_digits_are_digits : forall m e, let '(ds, _) := format_shortest m e in Forall (fun d => (0 <= d)%Z) ds /\ ds <> [].
+Proof. exact format_shortest_digits. Qed.
+Print Assumptions C09_shortest_digits_are_digits.
+
+(** every finite number prints: [bounded prec emax m e] says (m, e) is a binary64 number (mantissa below 2^53, exponent in
+    range, normalised); its text is plain decimal, in Bangla digits, and the conversion built-in reads it as a number *)
+Theorem C09_finite_numbers_print_as_plain_decimal : forall sg m e, bounded Float64.prec Float64.emax m e = true ->
+  exists s, to_bn_num (S754_finite sg m e) = Some s /\ plain_ascii (f64_to_string (S754_finite sg m e)) /\
+            s = map_chars print_char_map (f64_to_string (S754_finite sg m e)) /\
+            exists y, parse_f64 (map_chars builtins_bn_to_en s) = Some y.
+Proof. exact finite_numbers_print_as_plain_decimal. Qed.
+Print Assumptions C09_finite_numbers_print_as_plain_decimal.
+
+Theorem C09_shortest_digits_are_decimal_digits : forall m e, bounded Float64.prec Float64.emax m e = true ->
+  let '(ds, _) := format_shortest m e in Forall (fun d => (0 <= d <= 9)%Z) ds.
+Proof. exact format_shortest_le9. Qed.
+Print Assumptions C09_shortest_digits_are_decimal_digits.
